@@ -1972,7 +1972,7 @@ func (s *SelectStatement) GroupByOffset() (time.Duration, error) {
 func (s *SelectStatement) SetTimeRange(start, end time.Time) error {
 	cond := fmt.Sprintf("time >= '%s' AND time < '%s'", start.UTC().Format(time.RFC3339Nano), end.UTC().Format(time.RFC3339Nano))
 	if s.Condition != nil {
-		cond = fmt.Sprintf("%s AND %s", s.rewriteWithoutTimeDimensions(), cond)
+		cond = fmt.Sprintf("(%s) AND %s", s.rewriteWithoutTimeDimensions(), cond)
 	}
 
 	expr, err := NewParser(strings.NewReader(cond)).ParseExpr()
@@ -1992,7 +1992,7 @@ func (s *SelectStatement) rewriteWithoutTimeDimensions() string {
 	n := RewriteFunc(s.Condition, func(n Node) Node {
 		switch n := n.(type) {
 		case *BinaryExpr:
-			if n.LHS.String() == "time" {
+			if isTimeRef(n.LHS) || isTimeRef(n.RHS) {
 				return &BooleanLiteral{Val: true}
 			}
 			return n
@@ -2004,6 +2004,13 @@ func (s *SelectStatement) rewriteWithoutTimeDimensions() string {
 	})
 
 	return n.String()
+}
+
+// isTimeRef returns true if the expression is a reference to the time column,
+// in any letter case, as ConditionExpr recognizes it.
+func isTimeRef(expr Expr) bool {
+	ref, ok := expr.(*VarRef)
+	return ok && strings.ToLower(ref.Val) == "time"
 }
 
 func encodeMeasurement(mm *Measurement) *internal.Measurement {
